@@ -439,6 +439,10 @@ func runC19(tier string, r *rng) {
 	for _, ans := range []string{"fail", "ok:20", "ok:15", "ok:40"} {
 		c19HeadRaceStale(20, ans)
 	}
+	if os.Getenv("VERIF_NO_COLDSTART") == "" {
+		c19ColdStart(20)
+		c19ColdStart(45)
+	}
 	if os.Getenv("VERIF_NO_STALEPENDING") == "" {
 		for _, ab := range [][3]int{{20, 23, 24}, {20, 23, 30}, {10, 12, 13}, {20, 40, 41}} {
 			c19StalePending(ab[0], ab[1], ab[2])
@@ -537,4 +541,65 @@ func c19StalePending(storeTo, a, b int) {
 	c2, cancel3 := context.WithTimeout(ctx, time.Second)
 	_ = run.st.Stop(c2)
 	cancel3()
+}
+
+// gateHeadStore: a Store whose FIRST Head() call is paused after it has read the head.
+type gateHeadStore struct {
+	header.Store[*vhdr.Header]
+	first  atomic.Bool
+	read   chan struct{}
+	resume chan struct{}
+}
+
+func (g *gateHeadStore) Head(ctx context.Context, opts ...header.HeadOption[*vhdr.Header]) (*vhdr.Header, error) {
+	h, err := g.Store.Head(ctx, opts...)
+	if g.first.CompareAndSwap(false, true) {
+		close(g.read)
+		<-g.resume
+	}
+	return h, err
+}
+
+// c19ColdStart: nothing has loaded the Syncer's cached store head yet. Caller A of Head() is paused inside its (first) read
+// of the store head; gossip delivers the next header, which is adjacent and stored at once; caller B gets it; A goes on;
+// caller C asks. C (which starts after B returned) must not get less than B.
+func c19ColdStart(storeTo int) {
+	ctx := context.Background()
+	now := time.Now().UnixNano()
+	t0 := now - int64(5*time.Second) - int64(c19N-1)*c19Spacing
+	chain := vhdr.Chain("A", c19N, t0, c19Spacing, 0)
+	gs := &gateHeadStore{Store: newStoreWith(chain, 1, storeTo), read: make(chan struct{}), resume: make(chan struct{})}
+	g := &scriptGetter{chain: chain}
+	g.headFn = func(*vhdr.Header) (*vhdr.Header, error) { return nil, errors.New("scripted head failure") }
+	s, _ := newSyncer(g, gs, hsync.WithSyncFromHeight(1))
+	s.VerifSetPolicy(100*time.Hour, 60*time.Second, 100*time.Hour) // every stored head is recent: Head() needs no network
+	headOnce := func() string {
+		hctx, cancel := context.WithTimeout(ctx, 3*time.Second)
+		defer cancel()
+		if h, err := s.Head(hctx); err == nil && h != nil {
+			return utoa(h.H)
+		}
+		return "err"
+	}
+	adone := make(chan string, 1)
+	go func() { adone <- headOnce() }()
+	paused := "yes"
+	select {
+	case <-gs.read:
+	case <-time.After(2 * time.Second):
+		paused = "no"
+	}
+	arr := "ok"
+	if err := s.VerifIncomingNetworkHead(ctx, chain[storeTo]); err != nil {
+		arr = "err"
+	}
+	hb := headOnce()
+	close(gs.resume)
+	ha := "hang"
+	select {
+	case ha = <-adone:
+	case <-time.After(4 * time.Second):
+	}
+	hc := headOnce()
+	emit("C19 kind=coldstart store=%d => paused=%s arrive=%s ha=%s hb=%s hc=%s", storeTo, paused, arr, ha, hb, hc)
 }
